@@ -59,6 +59,7 @@ PeerInit(NP, N, spec) ==
     ncalls |-> 0,                       \* advance_frame calls so far
     mismatch |-> FALSE,                 \* MismatchedChecksum has been reported
     desyFirst |-> -1,                   \* first frame reported by a DesyncDetected event
+    dropMark |-> -1,                    \* current frame when a remote was dropped (kill / disconnect_player); -1 = none
     lastRes |-> "",                     \* result of the peer's last advance_frame
     mark   |-> -1000000,                \* current frame when the fault phase ended (C05)
     nadv   |-> 0 ]
@@ -587,7 +588,8 @@ OtherPeerLine(gg, r) ==
             THEN IF r.h < gg.NP THEN gg.owner[r.h]
                  ELSE IF r.h - gg.NP + 1 <= Len(gg.specs[p]) THEN gg.specs[p][r.h - gg.NP + 1] ELSE -1
             ELSE -1
-      g2 == IF dq >= 0 THEN [g2a EXCEPT !.pr[p].evs[dq] = <<"disc", 0>>] ELSE g2a
+      g2 == IF dq >= 0 THEN [g2a EXCEPT !.pr[p].evs[dq] = <<"disc", 0>>,
+                                          !.pr[p].dropMark = IF @ = -1 THEN g2a.pr[p].cur ELSE @] ELSE g2a
       expV == When(Has(r, "expect") /\ ~(\E i \in 1..Len(r.expect) : r.expect[i] = r.r),
                    V("C16", r.n, "misuse-not-rejected-as-documented", <<p, r.a, r.r, r.expect>>))
               \o When(Has(r, "expect_add") /\ Has(r, "add") /\ r.add # r.expect_add,
@@ -671,6 +673,14 @@ SilentSpecV(gg) ==
   IN IF bad = {} THEN <<>>
      ELSE V("C18", 0, "silent-spectator-not-disconnected", <<CHOOSE q \in bad : TRUE>>)
 
+\* C07: after a remote was dropped the survivor keeps advancing on its own
+AfterDropV(gg, n) ==
+  LET bad == {p \in 0..gg.N-1 : ~gg.isSpec[p] /\ gg.pr[p].alive /\ gg.pr[p].dropMark # -1
+                                /\ gg.pr[p].cur - gg.pr[p].dropMark < n}
+  IN IF bad = {} THEN <<>>
+     ELSE LET p == CHOOSE x \in bad : TRUE
+          IN V("C07", 0, "survivor-stopped-advancing-after-the-drop", <<p, gg.pr[p].dropMark, gg.pr[p].cur>>)
+
 Update(gg, r) ==
   LET a == r.a IN
   IF Has(r, "r") /\ Has(r, "p") /\ a # "cfg" /\ IsPanic(r.r) THEN PanicLine(gg, r) ELSE
@@ -680,15 +690,20 @@ Update(gg, r) ==
     [] a = "poll" -> IF r.r = "skip" THEN gg ELSE PollLine(gg, r)
     [] a = "ev"   -> IF r.r = "skip" THEN gg ELSE EvLine(gg, r)
     [] a \in {"disc", "dly", "stats", "addonly"} -> IF r.r = "skip" THEN gg ELSE OtherPeerLine(gg, r)
-    [] a = "kill" -> [gg EXCEPT !.pr[r.p].alive = FALSE]
+    [] a = "kill" -> [gg EXCEPT !.pr = [p \in 0..gg.N-1 |->
+                                          IF p = r.p THEN [gg.pr[p] EXCEPT !.alive = FALSE]
+                                          ELSE IF gg.pr[p].dropMark = -1 /\ ~gg.isSpec[p]
+                                               THEN [gg.pr[p] EXCEPT !.dropMark = gg.pr[p].cur] ELSE gg.pr[p]]]
     [] a = "forge" -> Bump(gg, "forgedPackets", 1)
     [] a = "mark" -> [gg EXCEPT !.marked = TRUE, !.minProgress = r.min_progress,
                                 !.pr = [p \in 0..gg.N-1 |-> [gg.pr[p] EXCEPT !.mark = gg.pr[p].cur]]]
     [] a = "end"  -> LET g1 == IF Get(r, "faults_hit", 0) > 0 THEN Bump(gg, "runsWithPlannedFault", 1) ELSE gg
                          g2a == IF g1.N > 0 /\ g1.corrupt THEN AddViol(g1, DetectV(g1, 0)) ELSE g1
                          g2b == IF g2a.N > 0 THEN AddViol(g2a, CutoffV(g2a)) ELSE g2a
-                         g2 == IF g2b.N > 0 /\ Get(r, "silent_spectator_check", FALSE)
-                               THEN AddViol(g2b, SilentSpecV(g2b)) ELSE g2b
+                         g2c == IF g2b.N > 0 /\ Get(r, "silent_spectator_check", FALSE)
+                                THEN AddViol(g2b, SilentSpecV(g2b)) ELSE g2b
+                         g2 == IF g2c.N > 0 /\ Get(r, "after_drop_progress", 0) > 0
+                               THEN AddViol(g2c, AfterDropV(g2c, r.after_drop_progress)) ELSE g2c
                      IN IF g2.N > 0 /\ g2.marked
                         THEN AddViol(Bump(g2, "progressChecked", 1), ProgressV(g2, 0)) ELSE g2
     [] a = "dlv"  -> Bump(gg, "delivered", 1)
